@@ -14,10 +14,137 @@
  *                                            g:<hex key>         get                               -> g=<rc>/<tag|~>
  *                                            r:<hex key>         remove                            -> r=<rc>
  *                                            k                   keys / names, sorted              -> k=[<hex>,<hex>,…]
+ *                                            C   (tbl) the table is replaced by its cif_value_clone          -> C=<rc>
+ *                                            N:<hex>,<hex>,…  (pkt) the packet is replaced by cif_packet_create(names) - unknown values -,
+ *                                                kept as it is when the creation is refused                      -> N=<rc>
+ *                                            S   (tbl) the table is stored in a managed CIF with cif_container_set_value and read back with
+ *                                                cif_container_get_value; every later op works on the READ-BACK table   -> S=<rc set>/<rc get>
+ *                                            P   (tbl) the table is stored as the one item of a loop packet (cif_loop_add_packet) and read
+ *                                                back through a packet iterator (cif_pktitr_next_packet, value cloned out of the packet);
+ *                                                (pkt) the packet itself is added to a loop created with its names and read back through
+ *                                                a packet iterator as a new packet; later ops work on what was read back
+ *                                                                                                          -> P=<rc add>/<rc next> | P=skip (empty packet)
  *     -> nm <result> <result> … | g:… (one per distinct key)
+ *
+ *  buffer level (utils.c is compiled INTO this executor with its allocator calls and its two ICU entry points interposed, so that
+ *  every malloc / realloc / free and every unorm_normalize / u_strFoldCase call the library code makes is observed):
+ *  norm buf <fn> <z|n> <srclen> <hex mem>
+ *        fn = nfd0 nfd1 nfc0 nfc1 (cif_unicode_normalize, mode, terminate) | fold (cif_fold_case) | norm norm0 (cif_normalize with /
+ *        without a result pointer) | name item tbl (cif_normalize_name / _item_name / _table_index, invalidityCode 12 / 42 / 73);
+ *        the source block holds exactly the units of <mem> (may contain 0000), plus a terminator with `z`; srclen as given.
+ *     -> nb rc=<rc> len=<*result_length|-> cap=<units of the result block|-> out=<first len units | C string at *normalized | ~>
+ *           term=<result[len] == 0 inside the block|-> tr=<m<units> r<units> f i<capacity>:<returned>:<z|w|o|e> …, comma separated;
+ *           `!…` = an ICU call whose capacity exceeds the block it writes to, or a write behind the block>
+ *        | n:<x>:<NFD x> f:<y>:<fold y> c:<z>:<NFC z>       (ICU on the strings of each stage, computed here with ample buffers)
+ *  norm icu <nfd|nfc|fold> <cap> <hex x>       ICU's capacity contract, called directly with a guarded destination
+ *     -> ic len=<returned> st=<z|w|o|e> w=<dest[0..len) unless overflow: *> nul=<dest[len]==0 when st=z> guard=<1 = nothing written
+ *           at or behind dest[cap]> | <n|f|c>:<x>:<f x>
  */
 #include "common.h"
 #include <unicode/unorm2.h>
+#include <unicode/unorm.h>
+
+/* ---- interposition inside utils.c ------------------------------------------------------------------------------------ */
+static char nb_trace[2048];
+static size_t nb_tlen;
+static struct { void *p; size_t units; } nb_blocks[32];
+static int nb_nblocks;
+
+static void nb_ev(const char *fmt, ...) {
+    va_list ap;
+    int k;
+    if (nb_tlen + 48 >= sizeof nb_trace) return;
+    if (nb_tlen) nb_trace[nb_tlen++] = ',';
+    va_start(ap, fmt);
+    k = vsnprintf(nb_trace + nb_tlen, sizeof nb_trace - nb_tlen, fmt, ap);
+    va_end(ap);
+    if (k > 0) nb_tlen += (size_t) k;
+}
+static void nb_reset(void) { nb_tlen = 0; nb_trace[0] = 0; nb_nblocks = 0; }
+static void nb_remember(void *p, size_t units) {
+    if (p && nb_nblocks < 32) { nb_blocks[nb_nblocks].p = p; nb_blocks[nb_nblocks].units = units; nb_nblocks++; }
+}
+static void nb_forget(void *p) {
+    int i;
+    for (i = 0; i < nb_nblocks; i++) if (nb_blocks[i].p == p) { nb_blocks[i] = nb_blocks[--nb_nblocks]; return; }
+}
+static long nb_units(const void *p) {
+    int i;
+    for (i = 0; i < nb_nblocks; i++) if (nb_blocks[i].p == p) return (long) nb_blocks[i].units;
+    return -1;
+}
+/* the library's blocks get NB_GUARD extra units filled with a sentinel, so that a store behind the block by (uninstrumented) ICU
+   code is seen when the block is released or handed over */
+#define NB_GUARD 4
+#define NB_SENTINEL 0xA5C3
+static void nb_arm(void *p, size_t units) { size_t i; for (i = 0; i < NB_GUARD; i++) ((UChar *) p)[units + i] = NB_SENTINEL; }
+static void nb_check(const void *p, long units) {
+    size_t i;
+    if (units < 0) return;
+    for (i = 0; i < NB_GUARD; i++) if (((const UChar *) p)[(size_t) units + i] != NB_SENTINEL) { nb_ev("!behind-block"); return; }
+}
+static void *nb_malloc(size_t bytes) {
+    void *p = malloc(bytes + NB_GUARD * sizeof(UChar));
+    nb_ev("m%lu", (unsigned long) (bytes / sizeof(UChar)));
+    if (bytes % sizeof(UChar)) nb_ev("!odd-size");
+    if (p) { nb_arm(p, bytes / sizeof(UChar)); nb_remember(p, bytes / sizeof(UChar)); }
+    return p;
+}
+static void *nb_realloc(void *q, size_t bytes) {
+    void *p;
+    if (q) nb_check(q, nb_units(q));
+    p = realloc(q, bytes + NB_GUARD * sizeof(UChar));
+    nb_ev("r%lu", (unsigned long) (bytes / sizeof(UChar)));
+    if (p) { nb_forget(q); nb_arm(p, bytes / sizeof(UChar)); nb_remember(p, bytes / sizeof(UChar)); }
+    return p;
+}
+static void nb_free(void *p) {
+    if (p) { nb_ev("f"); nb_check(p, nb_units(p)); nb_forget(p); }
+    free(p);
+}
+static char nb_status(UErrorCode ec) {
+    return ec == U_STRING_NOT_TERMINATED_WARNING ? 'w' : U_SUCCESS(ec) ? 'z' : ec == U_BUFFER_OVERFLOW_ERROR ? 'o' : 'e';
+}
+static int32_t nb_unorm_normalize(const UChar *src, int32_t len, UNormalizationMode mode, int32_t opts, UChar *dest, int32_t cap,
+                                  UErrorCode *ec) {
+    int32_t n;
+    long have = nb_units(dest);
+    if (have >= 0 && cap > have) nb_ev("!capacity>block");
+    n = unorm_normalize(src, len, mode, opts, dest, cap, ec);
+    nb_ev("i%ld:%ld:%c", (long) cap, (long) n, nb_status(*ec));
+    if (have >= 0) nb_check(dest, have);
+    return n;
+}
+static int32_t nb_u_strFoldCase(UChar *dest, int32_t cap, const UChar *src, int32_t len, uint32_t opts, UErrorCode *ec) {
+    int32_t n;
+    long have = nb_units(dest);
+    if (have >= 0 && cap > have) nb_ev("!capacity>block");
+    n = u_strFoldCase(dest, cap, src, len, opts, ec);
+    nb_ev("i%ld:%ld:%c", (long) cap, (long) n, nb_status(*ec));
+    if (have >= 0) nb_check(dest, have);
+    return n;
+}
+/* the result block handed to the caller: checked, then released with the plain allocator */
+static void nb_release_result(void *p) { if (p) { nb_check(p, nb_units(p)); nb_forget(p); free(p); } }
+
+#include <unicode/ucnv.h>
+#include <unicode/uchar.h>
+#define malloc(n) nb_malloc(n)
+#define realloc(p, n) nb_realloc(p, n)
+#define free(p) nb_free(p)
+#undef unorm_normalize
+#define unorm_normalize nb_unorm_normalize
+#undef u_strFoldCase
+#define u_strFoldCase nb_u_strFoldCase
+#include "utils.c"
+#undef malloc
+#undef realloc
+#undef free
+#undef unorm_normalize
+#undef u_strFoldCase
+/* (urename.h is not re-read: the two ICU names are restored by hand for the code below) */
+#define unorm_normalize U_ICU_ENTRY_POINT_RENAME(unorm_normalize)
+#define u_strFoldCase U_ICU_ENTRY_POINT_RENAME(u_strFoldCase)
 
 static const UNormalizer2 *NFD, *NFC;
 
@@ -150,12 +277,64 @@ static char *hexdup(const UChar *s) {
     return r;
 }
 
+
+/* replace *tbl / *pkt by what comes back from a managed CIF; prints the op's result */
+static void through_store(int is_tbl, char how, cif_value_tp **tbl, cif_packet_tp **pkt) {
+    static const UChar b0code[] = { 'b', '0', 0 };
+    static UChar tname[] = { '_', 't', 0 };
+    cif_tp *cif = NULL;
+    cif_block_tp *b = NULL;
+    cif_loop_tp *loop = NULL;
+    cif_pktitr_tp *it = NULL;
+    cif_packet_tp *p = NULL, *p2 = NULL;
+    cif_value_tp *v2 = NULL, *ref = NULL;
+    int rc1 = -1, rc2 = -1;
+
+    if (cif_create(&cif) != CIF_OK || cif_create_block(cif, b0code, &b) != CIF_OK) { OUT(" %c=setup-failed", how); goto done; }
+    if (is_tbl && how == 'S') {
+        rc1 = cif_container_set_value(b, tname, *tbl);
+        if (rc1 == CIF_OK) rc2 = cif_container_get_value(b, tname, &v2);
+    } else if (is_tbl) {
+        UChar *names[2];
+        names[0] = tname; names[1] = NULL;
+        if (cif_container_create_loop(b, NULL, names, &loop) != CIF_OK || cif_packet_create(&p, NULL) != CIF_OK
+                || cif_packet_set_item(p, tname, *tbl) != CIF_OK) { OUT(" %c=setup-failed", how); goto done; }
+        rc1 = cif_loop_add_packet(loop, p);
+        if (rc1 == CIF_OK && cif_loop_get_packets(loop, &it) == CIF_OK) {
+            rc2 = cif_pktitr_next_packet(it, &p2);
+            if (rc2 == CIF_OK && (cif_packet_get_item(p2, tname, &ref) != CIF_OK || cif_value_clone(ref, &v2) != CIF_OK)) rc2 = -2;
+            (void) cif_pktitr_close(it);
+        }
+    } else {
+        const UChar **ks = NULL;
+        if (cif_packet_get_names(*pkt, &ks) != CIF_OK) { OUT(" %c=setup-failed", how); goto done; }
+        if (!ks[0]) { OUT(" %c=skip", how); free((void *) ks); goto done; }
+        if (cif_container_create_loop(b, NULL, (UChar **) ks, &loop) != CIF_OK) { OUT(" %c=setup-failed", how); free((void *) ks); goto done; }
+        free((void *) ks);
+        rc1 = cif_loop_add_packet(loop, *pkt);
+        if (rc1 == CIF_OK && cif_loop_get_packets(loop, &it) == CIF_OK) {
+            rc2 = cif_pktitr_next_packet(it, &p2);
+            (void) cif_pktitr_close(it);
+        }
+    }
+    OUT(" %c=%d/%d", how, rc1, rc2);
+    if (is_tbl && v2) { cif_value_free(*tbl); *tbl = v2; v2 = NULL; }
+    if (!is_tbl && rc2 == CIF_OK && p2) { cif_packet_free(*pkt); *pkt = p2; p2 = NULL; }
+done:
+    if (v2) cif_value_free(v2);
+    if (p) cif_packet_free(p);
+    if (p2) cif_packet_free(p2);
+    if (loop) cif_loop_free(loop);
+    if (b) cif_container_free(b);
+    if (cif) (void) cif_destroy(cif);
+}
+
 static void do_map(int argc, char **argv) {
     int is_tbl = strcmp(argv[2], "tbl") == 0, i, nkeys = 0;
     cif_value_tp *tbl = NULL;
     cif_packet_tp *pkt = NULL;
-    UChar **keys = (UChar **) calloc((size_t) argc, sizeof(UChar *));
-    size_t *klen = (size_t *) calloc((size_t) argc, sizeof(size_t));
+    UChar **keys = (UChar **) calloc((size_t) argc * 16 + 16, sizeof(UChar *));
+    size_t *klen = (size_t *) calloc((size_t) argc * 16 + 16, sizeof(size_t));
 
     if (!is_tbl && strcmp(argv[2], "pkt") != 0) { OUT("bad-op"); free(keys); free(klen); return; }
     if ((is_tbl ? cif_value_create(CIF_TABLE_KIND, &tbl) : cif_packet_create(&pkt, NULL)) != CIF_OK) { OUT("nm setup-failed"); free(keys); free(klen); return; }
@@ -179,6 +358,39 @@ static void do_map(int argc, char **argv) {
                 free(hs);
                 free((void *) ks);
             }
+        } else if (strcmp(op, "C") == 0 && is_tbl) {
+            cif_value_tp *c = NULL;
+            int rc = cif_value_clone(tbl, &c);
+            OUT(" C=%d", rc);
+            if (rc == CIF_OK && c) { cif_value_free(tbl); tbl = c; }
+        } else if (op[0] == 'N' && op[1] == ':' && !is_tbl) {
+            /* a fresh packet from a list of names */
+            UChar *nm[16];
+            int cnt = 0, j, bad = 0, rc;
+            char *q = op + 2, *tok2;
+            cif_packet_tp *np = NULL;
+            while ((tok2 = strsep(&q, ",")) != NULL && cnt < 15) {
+                size_t nk = 0;
+                nm[cnt] = NULL;
+                if (!unhex(tok2, &nm[cnt], &nk) || !nm[cnt] || !nonul(nm[cnt], nk)) { bad = 1; free(nm[cnt]); break; }
+                cnt++;
+            }
+            nm[cnt] = NULL;
+            if (bad) OUT(" bad-op");
+            else {
+                rc = cif_packet_create(&np, nm);
+                OUT(" N=%d", rc);
+                if (rc == CIF_OK && np) { cif_packet_free(pkt); pkt = np; }
+                for (j = 0; j < cnt; j++) {
+                    int known = 0, i2;
+                    size_t nk = (size_t) u_strlen(nm[j]);
+                    for (i2 = 0; i2 < nkeys; i2++) if (klen[i2] == nk && memcmp(keys[i2], nm[j], nk * sizeof(UChar)) == 0) known = 1;
+                    if (!known) { keys[nkeys] = nm[j]; klen[nkeys] = nk; nkeys++; nm[j] = NULL; }
+                }
+            }
+            for (j = 0; j < cnt; j++) free(nm[j]);
+        } else if ((strcmp(op, "S") == 0 && is_tbl) || strcmp(op, "P") == 0) {
+            through_store(is_tbl, op[0], &tbl, &pkt);
         } else if ((op[0] == 's' || op[0] == 'g' || op[0] == 'r') && op[1] == ':') {
             char *hk = op + 2, *tag = NULL;
             UChar *k = NULL;
@@ -219,12 +431,107 @@ static void do_map(int argc, char **argv) {
     if (pkt) cif_packet_free(pkt);
 }
 
+
+/* ---- buffer level ---------------------------------------------------------------------------------------------------- */
+
+/* reference results from ICU primitives with ample buffers (explicit lengths: embedded NULs are ordinary characters) */
+static UChar *ref_of(char fn, const UChar *x, int32_t n, int32_t *outlen) {
+    return fn == 'n' ? n2(NFD, x, n, outlen) : fn == 'c' ? n2(NFC, x, n, outlen) : fold(x, n, outlen);
+}
+static void ref_token(char fn, const UChar *x, int32_t n, const UChar *fx, int32_t nfx) {
+    OUT(" %c:", fn); outhexn(x, (size_t) n); OUT(":"); outhexn(fx, (size_t) nfx);
+}
+
+static void do_buf(const char *fn, const char *mode, const char *lenarg, const char *h) {
+    UChar *units = NULL, *mem = NULL, *res = NULL;
+    size_t n = 0, memunits;
+    long srclen = strtol(lenarg, NULL, 10);
+    int z = strcmp(mode, "z") == 0, rc = -1;
+    int32_t rlen = -1, src_chars;
+    int has_len = 0, want = 1;
+    if ((!z && strcmp(mode, "n") != 0) || !unhex(h, &units, &n) || !units) { OUT("bad-op"); free(units); return; }
+    memunits = n + (z ? 1 : 0);
+    /* the preconditions of the C functions (cif.h: srclen "must not exceed the actual number of UChars"; srclen < 0 needs a terminator) */
+    if (srclen >= 0 ? (size_t) srclen > memunits : !(z || !nonul(units, n))) { OUT("bad-op"); free(units); return; }
+    mem = (UChar *) malloc((memunits ? memunits : 1) * sizeof(UChar));         /* exactly the block: a read behind it is an ASan report */
+    memcpy(mem, units, n * sizeof(UChar));
+    if (z) mem[n] = 0;
+    free(units);
+    if (srclen >= 0) src_chars = (int32_t) srclen; else { src_chars = 0; while (mem[src_chars]) src_chars++; }
+    nb_reset();
+    if (strcmp(fn, "nfd0") == 0 || strcmp(fn, "nfd1") == 0 || strcmp(fn, "nfc0") == 0 || strcmp(fn, "nfc1") == 0) {
+        rc = cif_unicode_normalize(mem, (int32_t) srclen, fn[2] == 'd' ? UNORM_NFD : UNORM_NFC, &res, &rlen, fn[3] == '1');
+        has_len = 1;
+    } else if (strcmp(fn, "fold") == 0) {
+        rc = cif_fold_case(mem, (int32_t) srclen, &res, &rlen);
+        has_len = 1;
+    } else if (strcmp(fn, "norm") == 0) rc = cif_normalize(mem, (int32_t) srclen, &res);
+    else if (strcmp(fn, "norm0") == 0) { rc = cif_normalize(mem, (int32_t) srclen, NULL); want = 0; }
+    else if ((strcmp(fn, "name") == 0 || strcmp(fn, "item") == 0 || strcmp(fn, "tbl") == 0) && (z || !nonul(mem, n))) {
+        rc = fn[0] == 'n' ? cif_normalize_name(mem, (int32_t) srclen, &res, CIF_INVALID_BLOCKCODE)
+           : fn[0] == 'i' ? cif_normalize_item_name(mem, (int32_t) srclen, &res, CIF_INVALID_ITEMNAME)
+           : cif_normalize_table_index(mem, (int32_t) srclen, &res, CIF_INVALID_INDEX);
+    } else { OUT("bad-op"); free(mem); return; }
+    OUT("nb rc=%d", rc);
+    if (rc == CIF_OK && has_len) {
+        long cap = nb_units(res);
+        OUT(" len=%ld cap=%ld out=", (long) rlen, cap); outhexn(res, (size_t) rlen);
+        OUT(" term=%d", (cap > rlen && res[rlen] == 0) ? 1 : 0);
+    } else if (rc == CIF_OK && want) {
+        OUT(" len=- cap=%ld out=", nb_units(res)); outhex(res); OUT(" term=-");
+    } else OUT(" len=- cap=- out=~ term=-");
+    if (res) nb_release_result(res);
+    OUT(" tr=%s |", nb_tlen ? nb_trace : "-");
+    /* what ICU itself says about the strings each stage works on */
+    {
+        int32_t nd, nf, nc;
+        if (strncmp(fn, "nfd", 3) == 0) { UChar *d = ref_of('n', mem, src_chars, &nd); if (d) ref_token('n', mem, src_chars, d, nd); free(d); }
+        else if (strncmp(fn, "nfc", 3) == 0 || strcmp(fn, "tbl") == 0) { UChar *c = ref_of('c', mem, src_chars, &nc); if (c) ref_token('c', mem, src_chars, c, nc); free(c); }
+        else if (strcmp(fn, "fold") == 0) { UChar *f = ref_of('f', mem, src_chars, &nf); if (f) ref_token('f', mem, src_chars, f, nf); free(f); }
+        else {
+            UChar *d = ref_of('n', mem, src_chars, &nd);
+            UChar *f = d ? ref_of('f', d, nd, &nf) : NULL;
+            UChar *c = f ? ref_of('c', f, nf, &nc) : NULL;
+            if (c) { ref_token('n', mem, src_chars, d, nd); ref_token('f', d, nd, f, nf); ref_token('c', f, nf, c, nc); }
+            else OUT(" g:icu-failed");
+            free(d); free(f); free(c);
+        }
+    }
+    free(mem);
+}
+
+/* ICU's capacity contract, observed directly */
+static void do_icu(const char *fn, const char *caparg, const char *h) {
+    UChar *x = NULL, *dest, *ref;
+    size_t n = 0, i;
+    long cap = strtol(caparg, NULL, 10);
+    int32_t got, nref;
+    UErrorCode ec = U_ZERO_ERROR;
+    int guard = 1;
+    char f = strcmp(fn, "nfd") == 0 ? 'n' : strcmp(fn, "nfc") == 0 ? 'c' : strcmp(fn, "fold") == 0 ? 'f' : 0;
+    if (!f || cap < 0 || cap > 100000 || !unhex(h, &x, &n) || !x) { OUT("bad-op"); free(x); return; }
+    dest = (UChar *) malloc(((size_t) cap + 8) * sizeof(UChar));
+    for (i = 0; i < (size_t) cap + 8; i++) dest[i] = NB_SENTINEL;
+    if (f == 'f') got = u_strFoldCase(dest, (int32_t) cap, x, (int32_t) n, U_FOLD_CASE_DEFAULT, &ec);
+    else got = unorm_normalize(x, (int32_t) n, f == 'n' ? UNORM_NFD : UNORM_NFC, 0, dest, (int32_t) cap, &ec);
+    for (i = (size_t) cap; i < (size_t) cap + 8; i++) if (dest[i] != NB_SENTINEL) guard = 0;
+    OUT("ic len=%ld st=%c w=", (long) got, nb_status(ec));
+    if (nb_status(ec) == 'o' || nb_status(ec) == 'e' || got < 0 || got > cap) OUT("*"); else outhexn(dest, (size_t) got);
+    OUT(" nul=%s guard=%d |", nb_status(ec) == 'z' && got < cap ? (dest[got] == 0 ? "1" : "0") : "-", guard);
+    ref = ref_of(f, x, (int32_t) n, &nref);
+    if (ref) ref_token(f, x, (int32_t) n, ref, nref); else OUT(" g:icu-failed");
+    free(ref); free(dest); free(x);
+}
+
 static void handle(int argc, char **argv) {
     UErrorCode ec = U_ZERO_ERROR;
+    nb_reset();
     if (!NFD) { NFD = unorm2_getNFDInstance(&ec); NFC = unorm2_getNFCInstance(&ec); }
     if (U_FAILURE(ec) || !NFD || !NFC) { OUT("nm icu-setup-failed"); return; }
     if (argc == 3 && strcmp(argv[1], "cp") == 0) do_cp(argv[2]);
     else if (argc == 5 && strcmp(argv[1], "match") == 0) do_match(argv[2], argv[3], argv[4]);
     else if (argc >= 3 && strcmp(argv[1], "map") == 0) do_map(argc, argv);
+    else if (argc == 6 && strcmp(argv[1], "buf") == 0) do_buf(argv[2], argv[3], argv[4], argv[5]);
+    else if (argc == 5 && strcmp(argv[1], "icu") == 0) do_icu(argv[2], argv[3], argv[4]);
     else OUT("bad-op");
 }
